@@ -85,6 +85,15 @@ RUNTIME_PARSE = {
     ".a style = .s": (1, 1, "b"), ".b style |= \"single\"": (1, 1, "b"),
     ".a line_comment = .s | .c = \"\\(.b line_comment |= \"z\" | .b)\"": (1, 1, "b"),
 }
+# provenance of COPIES of the document root (variable binding, merge, add, explode): the copy must keep
+# document / file index and file name
+COPYIDX = {
+    ". as $d | $d | file_index": (0, 0, "fi"), ". as $d | $d | document_index": (0, 0, "di"), ". as $d | $d | filename": (0, 0, "fn"),
+    "(. * {}) | file_index": (0, 0, "fi"), "(. * {\"z\": 1}) | filename": (0, 0, "fn"), "(. * {\"z\": 1}) | document_index": (0, 0, "di"),
+    "(. + {}) | file_index": (0, 0, "fi"), "explode(.) | document_index": (0, 0, "di"), "explode(.) | file_index": (0, 0, "fi"),
+    ".a as $x | $x | file_index": (1, 0, "fi"), "select(.a) | file_index": (0, 0, "fi"), ". as $d | $d | .a | file_index": (1, 0, "fi"),
+}
+SEL.update(COPYIDX)
 SEL.update(DATADEP)
 SEL.update(RUNTIME_PARSE)
 INPLACE = [".sum = (.n[] as $i ireduce (0; . += $i))", ".n[] as $i ireduce (0; . += $i)", ".a as $v | (0 | . += $v)",
@@ -97,8 +106,8 @@ EXPRS = [[s] for s in SEL] + [
     [".a", ".a | select(. == 3) | error(\"three\")"], ["select(.a == 1)", "tag"], [".a | select(. != null)", ".b"],
     [".a", ".a"], ["\"lit\"", ".a"],
     [".n[] as $i ireduce (0; . += $i)", ".a as $v | (0 | . += $v)"], [".a", ".n[] as $i ireduce (0; . += $i)"],
-] + [[s] for s in INPLACE] + [[s] for s in DATADEP] + [[s] for s in RUNTIME_PARSE]     # (a second time: weight)
-COLLECT = ("[.a]", "{\"x\": .a}", ".a + 1", ". * {\"z\": 1}") + tuple(INPLACE) + tuple(DATADEP) + tuple(RUNTIME_PARSE)   # not document-local in eval-all (collect; cross product of binary operators)
+] + [[s] for s in INPLACE] + [[s] for s in DATADEP] + [[s] for s in RUNTIME_PARSE] + [[s] for s in COPYIDX] + [[s] for s in COPYIDX]     # (a second time: weight)
+COLLECT = ("[.a]", "{\"x\": .a}", ".a + 1", ". * {\"z\": 1}") + tuple(INPLACE) + tuple(DATADEP) + tuple(RUNTIME_PARSE) + tuple(COPYIDX)   # not document-local in eval-all (collect; cross product of binary operators)
 IDENT = ["."]
 
 
@@ -396,6 +405,28 @@ def format_sweep(run):
     return res
 
 
+def json_streams(run, rng, n):
+    """non-YAML multi-document input (JSON values one after the other, several files): separators and provenance.
+    returns list of (args, texts, ok, got, expected)"""
+    res = []
+    for _ in range(n):
+        files = [[{"a": rng.randrange(1, 90)} for _ in range(rng.randrange(1, 4))] for _ in range(rng.randrange(1, 4))]
+        texts = ["".join(json.dumps(v) + "\n" for v in f) for f in files]
+        pos = [(fi, k, v["a"]) for fi, f in enumerate(files) for k, v in enumerate(f)]
+        exprs = [
+            (".a", "yaml", b"---\n".join(b"%d\n" % a for _, _, a in pos)),
+            ("document_index", "yaml", b"---\n".join(b"%d\n" % k for _, k, _ in pos)),
+            (".a | file_index", "yaml", b"---\n".join(b"%d\n" % fi for fi, _, _ in pos)),
+            ("[filename, file_index, document_index, .a]", "json", b"".join(b'["f%d.yml",%d,%d,%d]\n' % (fi, fi, k, a) for fi, k, a in pos)),
+            (". as $d | [$d | file_index, ($d | document_index)]", "json", b"".join(b"[%d,%d]\n" % (fi, k) for fi, k, _ in pos)),
+        ]
+        for e, o, exp in exprs:
+            args = ["e", "-p=json", "-o=" + o] + (["-I=0"] if o == "json" else []) + [e]
+            rc, out, _ = run.run_files(texts, lambda names: args + names)
+            res.append((args, texts, rc == 0 and out == exp, out, exp))
+    return res
+
+
 def uses_index(c):
     return any(SEL[s][2] != "b" for s in c["sels"])
 
@@ -431,6 +462,12 @@ def replay(rp):
         run = Runner(root)
         if rp.get("kind") == "sweep":
             return all(ok_ for fmt, n, ok_, _, _ in format_sweep(run) if fmt == rp.get("format"))
+        if rp.get("kind") == "jsonstream":
+            rc, out, _ = run.run_files(rp["files"], lambda names: rp["args"] + names)
+            return rc == 0 and out.decode("utf-8", "replace") == rp["expected"]
+        if rp.get("kind") == "constructed":
+            rc, out, _ = run.run_files(["a: 1\n", "a: 2\n"], lambda names: ["e", "[.] | .[0] | file_index"] + names)
+            return out == b"0\n---\n1\n"
         c = rp.get("case")
         if not c:
             return False
@@ -614,6 +651,23 @@ def run(chk):
                 chk.violation({"kind": "sweep", "format": fmt, "files": SWEEP[fmt][:n], "stdout": got.decode("utf-8", "replace"),
                                "expected_join_of_single_runs": exp.decode("utf-8", "replace")}, True,
                               "-p=%s over %d files is not the concatenation of the single-file runs" % (fmt, n))
+        # --- JSON streams: several values per file, several files
+        js = json_streams(run_, rng, 40 if thorough else 8)
+        for args, texts, ok_, got, exp in js:
+            chk.count(("jsonstream", tuple(args), tuple(texts)), nontrivial=True)
+            if not ok_:
+                chk.violation({"kind": "jsonstream", "args": args, "files": texts, "stdout": got.decode("utf-8", "replace"),
+                               "expected": exp.decode("utf-8", "replace")}, True,
+                              "JSON stream over several files: separators / document_index / file_index / filename are not the true positions")
+        chk.extra["json_stream_runs"] = len(js)
+        # --- known: index operators on a copy of the document placed inside a constructed container
+        rc_, out_, _ = run_.run_files(["a: 1\n", "a: 2\n"], lambda names: ["e", "[.] | .[0] | file_index"] + names)
+        if out_ != b"0\n---\n1\n":
+            if out_ == b"0\n0\n" and chk.is_known("index-of-constructed-copy"):
+                chk.known_finding("index-of-constructed-copy", "yq '[.] | .[0] | file_index' f0.yml f1.yml -> 0 0")
+            else:
+                chk.violation({"kind": "constructed", "stdout": out_.decode("utf-8", "replace")}, True,
+                              "file_index of a copy of the document inside a constructed sequence")
         chk.extra["format_sweep"] = {"%s/%d" % (f, n): o for f, n, o, _, _ in sweep}
         chk.extra["known_counts"] = n_known
         chk.extra["single_document_measurements"] = len(run_.single)
